@@ -66,28 +66,31 @@ structure ChildOut where
 def helpLookup (info : PkgInfo) (w : String) : Option Function :=
   (allTargets info).find? fun f => lower f.targetName == lower w
 
+/-- the generated main after its flags and defaults are settled -/
+def childCore (info : PkgInfo) (conv : Conv) (outcome : Call → Outcome) (verbose list help : Bool) (timeout : Int)
+    (ignoreDefault : Bool) (words : List String) : ChildOut :=
+  if help && words.isEmpty then { how := .usage, status := 0, verbose, timeout }
+  else if list then { how := .listed, status := 0, verbose, timeout }
+  else if help then
+    match words with
+    | [] => { how := .usage, status := 0, verbose, timeout }      -- not reached
+    | w :: _ =>
+      match helpLookup info w with
+      | some f => { how := .helpShown f.targetName, status := 0, verbose, timeout }
+      | none => { how := .helpUnknown w, status := 2, verbose, timeout }
+  else
+    let (r, listed) := run info conv (fun c => (outcome c).status) ignoreDefault words
+    { how := if listed then .listed else .ran, status := r.status, calls := r.calls, stop := r.stop, verbose, timeout }
+
 /-- the generated main: `E` is the environment the process was started with, `argv` = os.Args[1:] -/
 def childMain (info : PkgInfo) (conv : Conv) (outcome : Call → Outcome) (E : Env) (argv : List String) : ChildOut :=
   match parse childSpecs conv.parseDuration argv [] with
   | .error .help => { how := .usage, status := 0 }
   | .error e => { how := .flagError e, status := 2 }
   | .ok (a, words) =>
-    let verbose := getBool a "v" (envBool E "MAGEFILE_VERBOSE")
-    let list := getBool a "l" (envBool E "MAGEFILE_LIST")
-    let help := getBool a "h" (envBool E "MAGEFILE_HELP")
-    let timeout := getDur a "t" (envDur conv.parseDuration E "MAGEFILE_TIMEOUT")
-    if help && words.isEmpty then { how := .usage, status := 0, verbose, timeout }
-    else if list then { how := .listed, status := 0, verbose, timeout }
-    else if help then
-      match words with
-      | [] => { how := .usage, status := 0, verbose, timeout }      -- not reached
-      | w :: _ =>
-        match helpLookup info w with
-        | some f => { how := .helpShown f.targetName, status := 0, verbose, timeout }
-        | none => { how := .helpUnknown w, status := 2, verbose, timeout }
-    else
-      let ignoreDefault := (parseBool (getenv E "MAGEFILE_IGNOREDEFAULT")).getD false
-      let (r, listed) := run info conv (fun c => (outcome c).status) ignoreDefault words
-      { how := if listed then .listed else .ran, status := r.status, calls := r.calls, stop := r.stop, verbose, timeout }
+    childCore info conv outcome
+      (getBool a "v" (envBool E "MAGEFILE_VERBOSE")) (getBool a "l" (envBool E "MAGEFILE_LIST"))
+      (getBool a "h" (envBool E "MAGEFILE_HELP")) (getDur a "t" (envDur conv.parseDuration E "MAGEFILE_TIMEOUT"))
+      ((parseBool (getenv E "MAGEFILE_IGNOREDEFAULT")).getD false) words
 
 end MageModel.Gen
